@@ -3,10 +3,12 @@
 CLASS_HOME = {
     'DefaultVector': 'openmdao/vectors/default_vector.py',
     'Vector': 'openmdao/vectors/vector.py',
+    '_VecData': 'openmdao/vectors/vector.py',
 }
 
 PROPERTY_MODULES = {
     'C10': ['contracts.c10_bounds'],
+    'C33': ['contracts.c33_vector'],
 }
 
 # modules whose contracts may be used as callee contracts by any property
